@@ -538,6 +538,69 @@ func (e *idxEnv) checkQueries(c *core.Ctx, prop string, hist []idxMut, qs []idxQ
 	}
 }
 
+// c13SiblingRebuild: two query stores over one Store, the index of the second named like the
+// first one's with a letter more (k and kk). RebuildIndexes on one of them concerns its own
+// index entries only: afterwards the queries of both still equal the reference scan.
+func c13SiblingRebuild(c *core.Ctx, p idxParams) {
+	env, err := newIdxEnv(p.Typed, p.Prefix)
+	if err != nil {
+		c.Inconclusive("open: " + err.Error())
+		return
+	}
+	defer env.close()
+	qsB := badgerstore.NewQueryStore(env.st, idxIQ).AddIndex(badgerstore.Index{Name: "kk", Key: idxKey("k", nil)})
+	keys := []string{"a", "ab", "b", "abc", "a<FF>", emptyKeyMarker, "z"}
+	for k := 0; k < 24; k++ {
+		id := fmt.Sprintf("sib%02d", k)
+		v := mkValue2(env.typed, fmt.Sprintf("sib.u%d", k), keys[k%len(keys)], []string{"a", ""}[k%2])
+		wt := env.st.Write(id)
+		if err := wt.Create(v); err == nil {
+			env.setModel(id, v)
+		}
+		wt.Close()
+	}
+	env.qs.Flush()
+	qsB.Flush()
+	check := func(when string) {
+		for _, pre := range []string{"", "a", "ab", "b"} {
+			for _, rev := range []bool{false, true} {
+				for _, idx := range []string{"k", "kk"} {
+					q := idxQuery{Index: idx, Prefix: pre, Limit: -1, Reverse: rev}
+					st := env.qs
+					if idx == "kk" {
+						st = qsB
+					}
+					c.Eval(1)
+					c.Obs("sibling_query_store_queries", 1)
+					res, err := st.Query(q.values())
+					got, _ := res.([]string)
+					want := refQuery(env.model, q)
+					if err != nil || strings.Join(got, "\x1f") != strings.Join(want, "\x1f") {
+						c.Violation("C13/query-mismatch:sibling-query-store:"+when, fmt.Sprintf("two query stores over one store (indexes k and kk), %s: query %+v on index %s returns %v (error %v), reference scan gives %v", when, q, idx, got, err, want),
+							map[string]interface{}{"query": q, "got": got, "want": want, "when": when, "indexes": []string{"k", "x2", "kk"}})
+						return
+					}
+				}
+			}
+		}
+	}
+	check("before-rebuild")
+	if err := env.qs.RebuildIndexes(); err != nil {
+		c.Violation("C13/rebuild-failed", "RebuildIndexes failed: "+err.Error(), nil)
+		return
+	}
+	env.qs.Flush()
+	qsB.Flush()
+	check("after-rebuild-of-the-other")
+	if err := qsB.RebuildIndexes(); err != nil {
+		c.Violation("C13/rebuild-failed", "RebuildIndexes failed: "+err.Error(), nil)
+		return
+	}
+	qsB.Flush()
+	check("after-rebuild-of-both")
+	c.Distinct("sibling-rebuild/" + fmt.Sprint(p.Typed) + "/" + p.Prefix)
+}
+
 func idxRun(c *core.Ctx, b core.Batch, prop string) {
 	var p idxParams
 	json.Unmarshal(b.Params, &p)
@@ -560,6 +623,9 @@ func idxRun(c *core.Ctx, b core.Batch, prop string) {
 			c13Concurrent(c, env, r, h)
 		}
 		env.close()
+	}
+	if prop == "C13" && p.Kind == "history" {
+		c13SiblingRebuild(c, p)
 	}
 	for k, v := range sched.Counts() {
 		c.Obs("hook:"+k, v)
